@@ -316,3 +316,7 @@ CHECKS["C07"]["text"] += (" The chain now starts at the storage boundary async-r
 CHECKS["C05"]["text"] += (" At the storage boundary (unit raftdata): FileStore::save_hard_state sends ONE SaveHardState(term, vote or 0); FileStore::get_initial_state returns exactly the term, vote (0 = none), last-applied index and member set "
                           "the index manager reports (reply log: the answers a function got are a ghost sequence its postcondition can talk about).")
 CHECKS["C08"]["text"] += (" FileStore::finalize_snapshot_installation is under contract: catalogue entry under the id the file was created with, then the very file to the apply manager, then split-off, membership query, pointer entry — in this order, nothing else.")
+
+CHECKS["C01"]["text"] += (" Compaction dispatch is under contract as well: StateApplyManager::do_build_snapshot (effect log + reply log: header = (compaction index, term of that entry, membership as reported), all seven components write into THAT writer, "
+                          "flush, catalogue entry (id, same index) — in this order) and RaftSnapshotManager::{get_next_id, complete_snapshot, save_snapshot_to_index, load_snapshot_header} (the completed snapshot is the last catalogue entry, "
+                          "the catalogue goes to the index manager in one message).")
